@@ -106,12 +106,15 @@ def r2_callbacks(report, repo, loop):
                'callbacks are iterated over %s, not the registration list '
                'itself' % norm(loop.iter))
   var = dotted(loop.target)
+  # the local bound to the executor's finalised state
+  fsn = lib.local_from(f, lib.calls(name='self._executor.finalize'),
+                       'final_state')
   calls = [c for c in core.calls_in(loop) if dotted(c.func) == var]
   report.check(len(calls) == 1, rule, f.qualname, 'one-call', loop,
                'each callback is called exactly once per iteration',
                'callback invoked %d times per iteration' % len(calls))
   for c in calls:
-    ok = len(c.args) == 1 and dotted(c.args[0]) == 'final_state.test_record' \
+    ok = len(c.args) == 1 and dotted(c.args[0]) == fsn + '.test_record' \
         and not c.keywords
     report.check(ok, rule, f.qualname, 'same-record', c,
                  'callback receives final_state.test_record',
@@ -149,7 +152,7 @@ def r2_callbacks(report, repo, loop):
                'de-duplication by == drops a distinct equal object) and never '
                'receives the record' % [norm(m) for m in muts])
   fs = [n for n in walk_no_nested(f.node) if isinstance(n, ast.Assign) and
-        any(core.is_name(t, 'final_state') for t in n.targets)]
+        any(core.is_name(t, fsn) for t in n.targets)]
   report.check(len(fs) == 1 and call_name(fs[0].value) ==
                'self._executor.finalize', rule, f.qualname, 'final_state',
                f.node, 'final_state is the executor\'s finalised state, bound '
